@@ -739,8 +739,121 @@ def shape_of(c):
     return c["op"] + "(" + ",".join(shape_of(c[k]) for k in ("a", "b") if k in c and c[k]["op"] != "none") + ")"
 
 
+# ---- compiler pipeline (C10) ------------------------------------------------------------------
+C10_OPTIONS = ["-fcompound-names", "-fwide-types", "-findirect-choice", "-fno-constraints", "-no-gen-PER", "-no-gen-OER", "-fincludes-quoted"]
+
+
+def check_C10(tier, seed):
+    import subprocess
+    from concurrent.futures import ThreadPoolExecutor
+    t0 = time.time()
+    res = Result("C10")
+    known = lib.load_findings("C10")
+    # sources: the universe modules (valid programs) and fault-injected modules from the C11 generator
+    mods = {}
+    rc, out, st = lib.run_tlc("MC_Mod", "", names=False)
+    for m in lib.tlc_payload(out, "MOD"):
+        if m["name"] in (("VE", "VA", "VI", "VC") if tier == "thorough" else ("VE", "VA", "VC")):
+            mods[m["name"]] = Module(m)
+    _, legal, st2 = lib.generate("MC_Legal", ["MaxComps = 2", "Rich = TRUE"], ["Export"], workers=4)
+    res.states += st2["distinct"]
+    res.transitions += st2["states"]
+    faulty = [s for s in legal if not s["legal"]]
+    step = max(1, len(faulty) // (40 if tier == "quick" else 200))
+    faults = {"F%d" % i: Module(s["mod"]) for i, s in enumerate(faulty[::step])}
+    sources = sorted(mods) + sorted(faults)
+    consts = ["Sources = {%s}" % ", ".join('"%s"' % x for x in sources),
+              "Options = {%s}" % ", ".join('"%s"' % o for o in C10_OPTIONS),
+              "AllSubsets = %s" % ("TRUE" if tier == "thorough" else "FALSE")]
+    _, runs, st = lib.generate("MC_Pipeline", consts, ["TypeOK", "Export"], workers=4)
+    res.states += st["distinct"]
+    res.transitions += st["states"]
+    # fault-injected sources only need the compiler stage; run them with a few option sets
+    runs = [r for r in runs if r["src"] in mods or len(r["opts"]) <= 1]
+    for i, r in enumerate(runs):
+        r["id"] = i + 1
+    lib.ensure_mirror()
+
+    def one(r):
+        evs = []
+        flags = list(r["opts"])
+        if r["src"] in faults:
+            a = run_asn1c(faults[r["src"]].text(), flags=flags)
+            evs.append({"id": r["id"], "a": "Asn1c", "exit": a["exit"], "signal": a["signal"], "diag": a["diag"], "stderr": a["stderr"]})
+            return evs
+        M = mods[r["src"]]
+        b = lib.build_module(M, flags=flags)
+        evs.append({"id": r["id"], "a": "Asn1c", "exit": b.asn1c_rc if b.asn1c_rc >= 0 else 0, "signal": -b.asn1c_rc if b.asn1c_rc < 0 else 0,
+                    "diag": bool(b.asn1c_out.strip()), "stderr": b.asn1c_out[-300:]})
+        if b.asn1c_rc != 0:
+            return evs
+        ccbad = b.err.startswith("cc failed")
+        evs.append({"id": r["id"], "a": "CC", "status": 1 if ccbad else 0, "detail": b.err[-600:] if ccbad else ""})
+        if ccbad:
+            return evs
+        # C++ compatibility of the generated headers
+        hdrs = sorted(f for f in os.listdir(b.dir) if f.endswith(".h") and os.path.exists(os.path.join(b.dir, f[:-2] + ".c")) and not f.startswith("verif"))
+        cxx = os.path.join(b.dir, "verif_cxx.cc")
+        if not os.path.exists(cxx + ".done"):
+            open(cxx, "w").write("".join('#include "%s"\n' % h for h in hdrs) + "int main() { return 0; }\n")
+            rr = lib.sh(["g++", "-fsyntax-only", "-w", "-I.", "-I" + lib.ensure_mirror()["skeletons"], "verif_cxx.cc"], cwd=b.dir)
+            open(cxx + ".done", "w").write(json.dumps({"rc": rr.returncode, "out": rr.stdout[-600:]}))
+        cx = json.load(open(cxx + ".done"))
+        evs.append({"id": r["id"], "a": "CXX", "status": 1 if cx["rc"] else 0, "detail": cx["out"]})
+        if cx["rc"]:
+            return evs
+        lkbad = b.err.startswith("link failed")
+        evs.append({"id": r["id"], "a": "Link", "status": 1 if lkbad else 0, "detail": b.err[-600:] if lkbad else ""})
+        if lkbad or not b.ok:
+            return evs
+        dout = os.path.join(b.dir, "verif_descr.json")
+        rr = subprocess.run([b.driver, "--descriptors", dout], stdout=subprocess.PIPE, stderr=subprocess.STDOUT, text=True, timeout=120)
+        try:
+            dj = json.loads(open(dout).read())
+        except Exception:
+            dj = {"ok": False, "err": "descriptor walk died: rc=%s %s" % (rr.returncode, rr.stdout[-300:]), "where": ""}
+        evs.append({"id": r["id"], "a": "Descr", "ok": bool(dj.get("ok")), "detail": "%s %s" % (dj.get("err"), dj.get("where")),
+                    "descriptors": dj.get("descriptors", 0)})
+        return evs
+    evs = []
+    with ThreadPoolExecutor(4) as ex:
+        for e in ex.map(one, runs):
+            evs += e
+    mism, tot = lib.judge("MC_Pipeline", None, runs, evs, constants=consts, shards=2)
+    mism = expand(mism)
+    res.states += tot["distinct"]
+    res.transitions += tot["states"]
+    res.sessions += len(runs)
+    res.events += len(evs)
+    byid = {r["id"]: r for r in runs}
+    evid = {}
+    for e in evs:
+        evid.setdefault(e["id"], []).append(e)
+    for r in runs:
+        res.distinct.add((r["src"], tuple(r["opts"])))
+    res.samples.append({"run": runs[len(runs) // 2], "events": evid.get(runs[len(runs) // 2]["id"])})
+    for m in mism:
+        r = byid[m["id"]]
+        sig = {"op": "pipeline", "module": r["src"] if r["src"] in mods else "fault-injected", "style": " ".join(r["opts"]), "reason": m["reason"]}
+        f = None
+        for kf in known:
+            for alt in (kf["match"] if isinstance(kf["match"], list) else [kf["match"]]):
+                mt = dict(alt)
+                pred = mt.pop("pred", None)
+                if mt.get("op") == "pipeline" and lib.finding_matches({"match": mt}, sig) and (not pred or F.MPREDS[pred](r, evid.get(m["id"]))):
+                    f = kf
+        if f:
+            res.known[f["id"]] = res.known.get(f["id"], 0) + 1
+        else:
+            res.violations.append((sig, {"property": "C10", "signature": sig, "run": r, "events": evid.get(m["id"]),
+                                         "module_text": (mods.get(r["src"]) or faults[r["src"]]).text()}))
+    return finish(res, tier, seed, "exploration", t0,
+                  "runs = (source module, option set): the universe modules VE / VA / VC (thorough: + VI) under no option, each of -fcompound-names -fwide-types -findirect-choice -fno-constraints -no-gen-PER -no-gen-OER -fincludes-quoted alone and all together (thorough: all 128 subsets): asn1c exit status, compilation of every emitted file with the project's own flags (gnu99), g++ -fsyntax-only over all generated headers, link of libasncodec + driver, descriptor self-consistency walk (offsets within structures, sorted tag maps, optional-member tables, inverse canonical maps); fault-injected modules from the C11 generator x {no option, each option}: exit by status with a diagnostic, never a signal",
+                  ASSUME_COMPILER + ["TLA+ contributes the run enumeration and the pipeline protocol monitor; 'this C file compiles' is observed with gcc/g++"])
+
+
 CHECKS = {"C01": check_C01, "C02": check_C02, "C03": check_C03, "C04": check_C04, "C05": check_C05, "C06": check_C06, "C07": check_C07, "C08": check_C08, "C14": check_C14,
-          "C09": check_C09, "C11": check_C11, "C13": check_C13, "C16": check_C16, "C17": check_C17}
+          "C09": check_C09, "C10": check_C10, "C11": check_C11, "C13": check_C13, "C16": check_C16, "C17": check_C17}
 
 
 def replay(prop, path):
